@@ -113,7 +113,6 @@ func init() {
 		seed("C02", "C02-r6-4", "R2.5", "the white-space set"),
 		seed("C04", "C04-r6-4", "R4.3", "calls the expression step"),
 		seed("C16", "C16-r6-3", "R16.3", "nothing is parsed behind the pop"),
-		seed("C15", "C06-r6-3", "R15.6", "is never the blank-line marker"),
 		variant{Prop: "C15", Name: "empty-comment-is-the-blank-line-marker-again", File: lx,
 			Old:  "\t\t\tif text == \"\" {\n\t\t\t\t// the empty string is the blank-line marker: a comment without text keeps one blank\n\t\t\t\ttext = \" \"\n\t\t\t}\n",
 			New:  "",
@@ -138,5 +137,6 @@ func init() {
 		seed("C07", "C07-r7-4", "R7.1", "writes bytes, not code points"),
 		seed("C12", "C13-r7-2", "R12.1", "ends at '}' or at the end of input"),
 		seed("C15", "C15-r7-4", "R15.5", "written exactly for non-empty entries"),
+		seed("C15", "C06-r7-4", "R15.1", "replayed directly in front of its token"),
 	)
 }
